@@ -62,9 +62,15 @@ def split_blocks(seq, n):
 
 
 def gen(case, root):
-    edges = {tuple(e): "base" for e in case["edges"]}
-    return modgen.write_module(root, case["k"], edges, chains=bool(case.get("chains")),
+    td = {tuple(e) for e in case.get("typedef_edges", ())}
+    edges = {tuple(e): ("typedef" if tuple(e) in td else "base") for e in case["edges"]}
+    libs = modgen.write_module(root, case["k"], edges, chains=bool(case.get("chains")),
                                enum_only=tuple(case.get("enum_only", ())))
+    # a typedef of another library's class is a global type of this library only when it is forced
+    for (i, j), kind in edges.items():
+        if kind == "typedef":
+            open(os.path.join(libs[i]["dir"], f"lib{i}_d{j}.N"), "w").write(f"forcetype T{i}_{j}\n")
+    return libs
 
 
 def igate_all(b, root, libs):
@@ -173,6 +179,8 @@ def run_case(ctx, case):
                                   edge=[u, v], perm=perm)
     if case.get("build") and not cyc:
         build_and_import(res, b, root, libs, ins, edges, k)
+    if case.get("typedef_edges"):
+        res.features.add(sig + ":typedef-edges=" + ("all" if len(case["typedef_edges"]) == len(case["edges"]) else "mixed"))
     res.sample = dict(k=k, edges=edges, perms=len(case["perms"]), cyclic=cyc, chains=bool(case.get("chains")),
                       enum_only=sorted(eo))
     if case.get("chains"):
@@ -262,7 +270,7 @@ def main(chk):
     chk.rule = ("case = (k, edge set of the cross-library inheritance digraph, list of command-line orders); k<=3 exhaustive "
                 "(all labelled digraphs x all permutations), larger k sampled; + failing-load cases; distinct = "
                 "(k, |edges|, cyclic?) signatures whose module file was parsed and checked")
-    chk.assumptions = ["cross-library *typedef* edges are only realisable with forcetype (which duplicates the class in both libraries) and are not generated",
+    chk.assumptions = ["a cross-library typedef edge is realised by a published typedef made a global type with `forcetype` in a .N file",
                        "shim headers stand in for the Panda3D runtime when modules are built and imported"]
     rng = chk.rng
     cases = []
@@ -273,6 +281,20 @@ def main(chk):
             cases.append(dict(id=cid, k=k, edges=edges, perms=[list(p) for p in itertools.permutations(range(k))],
                               build=False))
     chk.extra["exhaustive_graphs_k_le_3"] = len(cases)
+    # the same graphs with every edge carried by a published (forced) typedef instead of a base class, and mixed
+    for k in (2, 3):
+        for edges in all_graphs(k):
+            if not edges:
+                continue
+            kinds = [("all", list(edges))]
+            if len(edges) >= 2:
+                kinds.append(("mixed", [e for e in edges if rng.random() < 0.5] or [edges[0]]))
+            for nm, td in kinds:
+                if k == 3 and chk.quick() and rng.random() < 0.5:
+                    continue
+                cid += 1
+                cases.append(dict(id=cid, k=k, edges=edges, typedef_edges=td, build=False,
+                                  perms=[list(p) for p in itertools.permutations(range(k))]))
     # sampled larger graphs
     for k in (4, 5, 6) if not chk.quick() else (4, 5):
         for n in range(chk.pick(6, 120 if k == 4 else 40)):
